@@ -1981,6 +1981,101 @@ func c11OutcomeMatchesCase(c *Check) {
 						continue
 					}
 					res := ast.Unparen(ret.Results[0])
+					// a plain local (`var err error … return err`) is judged by the definitions that reach this return on
+					// a path from this case: those made on the way, and – if the way can avoid them all – those live at
+					// the case (a declaration without a value is the zero value: nil / false)
+					if v, isVar := objOf(info, res).(*types.Var); isVar && !v.IsField() && !(v.Pkg() != nil && v.Parent() == v.Pkg().Scope()) {
+						isDef := func(t Pt) bool {
+							if t.Node() == nil {
+								return false
+							}
+							if vs, isSpec := t.Node().(*ast.ValueSpec); isSpec {
+								for _, nm := range vs.Names {
+									if info.Defs[nm] == v {
+										return true
+									}
+								}
+							}
+							return assignsObj(info, t.Node(), v)
+						}
+						rhsOf := func(dp Pt) (ast.Expr, bool) { // (nil, true) = zero value
+							switch st := dp.Node().(type) {
+							case *ast.AssignStmt:
+								for i, l := range st.Lhs {
+									if objOf(info, l) == v && len(st.Rhs) == len(st.Lhs) {
+										return st.Rhs[i], true
+									}
+								}
+							case *ast.ValueSpec:
+								for i, nm := range st.Names {
+									if info.Defs[nm] == v {
+										if i < len(st.Values) {
+											return st.Values[i], true
+										}
+										return nil, true
+									}
+								}
+							}
+							return nil, false
+						}
+						var vals []ast.Expr
+						undecided := false
+						add := func(dp Pt) {
+							e, ok := rhsOf(dp)
+							if !ok {
+								undecided = true
+								return
+							}
+							vals = append(vals, e)
+						}
+						for _, dp := range r.F.Points() {
+							if !isDef(dp) {
+								continue
+							}
+							dp := dp
+							// made on the way from the case to the return
+							if _, f1 := r.F.Reach(Query{From: start, Inclusive: true, Target: func(t Pt) bool { return t == dp }}); f1 {
+								if _, f2 := r.F.Reach(Query{From: []Pt{dp}, Target: func(t Pt) bool { return t == q }, Avoid: func(t Pt) bool { return t != dp && isDef(t) }}); f2 {
+									add(dp)
+								}
+							}
+						}
+						if _, direct := r.F.Reach(Query{From: start, Inclusive: true, Target: func(t Pt) bool { return t == q }, Avoid: func(t Pt) bool { return isDef(t) && !isPt(start)(t) }}); direct {
+							for _, dp := range r.F.Points() {
+								if !isDef(dp) {
+									continue
+								}
+								dp := dp
+								if _, live := r.F.Reach(Query{From: []Pt{dp}, Target: isPt(start), Avoid: func(t Pt) bool { return t != dp && isDef(t) }}); live {
+									add(dp)
+								}
+							}
+						}
+						if !undecided && len(vals) > 0 {
+							allSucc, anySucc := true, false
+							for _, e := range vals {
+								ok := e == nil || constSuccess(e) || (cl.acquire && sentinel(e))
+								if e != nil && !cl.acquire {
+									ok = constSuccess(e)
+								}
+								if ok {
+									anySucc = true
+								} else {
+									allSucc = false
+								}
+							}
+							if cl.acquire && allSucc {
+								continue
+							}
+							if !cl.acquire && !anySucc {
+								continue
+							}
+							if !cl.acquire && anySucc {
+								msg = "a give-up case (context done / timer) can end in the constant success at line " + itoa(p.Fset.Position(ret.Pos()).Line) + " (" + v.Name() + " still has its success value there): the caller proceeds without holding a permit and releases one it never took"
+								continue
+							}
+						}
+					}
 					if cl.acquire {
 						if !constSuccess(res) && !sentinel(res) {
 							msg = "after the permit was acquired the function returns " + exprStr(res) + " (line " + itoa(p.Fset.Position(ret.Pos()).Line) + "), not the constant success: when that value says 'failed' (the context expired in the same instant) the permit is held but the caller was told it got none – it is never released and the limit shrinks by one for good"
